@@ -435,6 +435,20 @@ def convert_bytes(data):
 
     return memoryview(buf)
 
+def _enum_member(enum_type):
+    """argparse `type=` for an option that names a member of `enum_type`: an unknown name is a usage error"""
+
+    def convert(name):
+        try:
+            return enum_type[name]
+        except KeyError:
+            raise argparse.ArgumentTypeError(
+                f"invalid choice: {name!r} (choose from {', '.join(m.name for m in enum_type)})"
+            )
+
+    return convert
+
+
 def main(args=None):
     try:
         if args is None:
@@ -537,7 +551,7 @@ def main(args=None):
         parser.add_argument(
             "--tensor-allocator",
             default=TensorAllocator.HillClimb,
-            type=lambda s: TensorAllocator[s],
+            type=_enum_member(TensorAllocator),
             choices=list(TensorAllocator),
             help="Tensor Allocator algorithm (default: %(default)s)",
         )
@@ -558,7 +572,7 @@ def main(args=None):
         )
         parser.add_argument(
             "--optimise",
-            type=lambda s: scheduler.OptimizationStrategy[s],
+            type=_enum_member(scheduler.OptimizationStrategy),
             default=scheduler.OptimizationStrategy.Performance,
             choices=list(scheduler.OptimizationStrategy),
             help=(
